@@ -37,7 +37,7 @@ def gen_angle(rng, eps, kind):
 ANG = ['zero', 'eps', 'sqrteps', 'tiny', 'one', 'nearpi', 'pi-eps', 'beyondpi', 'far']
 
 
-def gen_X(rng, g, eps, kind, torch, dtype):
+def gen_X(rng, g, eps, kind, torch, dtype, unit_scale=False):
     ang = gen_angle(rng, eps, kind)
     ax = direction(rng) if rng.random() < 0.8 else rng.choice([[1.0, 0, 0], [0, 1.0, 0], [0, 0, -1.0]])
     s, c = math.sin(ang / 2), math.cos(ang / 2)
@@ -49,7 +49,9 @@ def gen_X(rng, g, eps, kind, torch, dtype):
     if rng.random() < 0.3:
         q = [-v for v in q]
     t = [10 ** rng.uniform(-6, 6) * rng.choice([1, -1]) if rng.random() < 0.8 else 0.0 for _ in range(3)]
-    sc = [math.exp(rng.uniform(-8, 8))] if rng.random() < 0.8 else [math.exp(rng.choice([1, -1]) * eps * rng.choice([0.5, 4, 2 ** 20]))]
+    sc = [math.exp(rng.uniform(-8, 8))] if rng.random() < 0.7 else [rng.choice([1.0, 1.0, math.exp(rng.choice([1, -1]) * eps * rng.choice([0.5, 4, 2 ** 20]))])]
+    if unit_scale:
+        sc = [1.0]
     x = {'SO3': q, 'SE3': t + q, 'RxSO3': q + sc, 'Sim3': t + q + sc}[g]
     return [float(v) for v in torch.tensor(x, dtype=dtype).tolist()]
 
@@ -175,10 +177,13 @@ def run(ctx):
         for _ in range(counts[g]):
             plan.append((g, 'float64' if rng.random() < 0.7 else 'float32', rng.choice(ANG)))
     cases, meta = [], []
+    ncase = 0
     for (g, dname, kind) in plan:
         dtype = torch.float64 if dname == 'float64' else torch.float32
         eps = float(torch.finfo(dtype).eps)
-        X = gen_X(rng, g, eps, kind, torch, dtype)
+        ncase += 1
+        # scale exactly 1 (log-scale 0: the |sigma| <= eps regimes of rxso3_Ws) for every second directed Sim3 / RxSO3 case
+        X = gen_X(rng, g, eps, kind, torch, dtype, unit_scale=(g in ('Sim3', 'RxSO3') and ncase % 2 == 0))
         try:
             out = impl_log(pp, torch, g, X, dtype)
         except Exception as e:
